@@ -192,8 +192,8 @@ static void upipe_ts_decaps_input(struct upipe *upipe, struct uref *uref,
             return;
         }
         if (upipe_ts_decaps->last_uref != NULL &&
-            ubase_check(uref_block_compare(uref, 0,
-                                           upipe_ts_decaps->last_uref))) {
+            ubase_check(uref_block_equal(uref,
+                                         upipe_ts_decaps->last_uref))) {
             upipe_dbg(upipe, "removing duplicate packet");
             uref_free(uref);
             return;
